@@ -89,6 +89,35 @@ theorem sinc_sq_le_one (x : ℝ) : sinc x * sinc x ≤ 1 := by
 
 theorem sinc_sq_nonneg (x : ℝ) : 0 ≤ sinc x * sinc x := mul_self_nonneg _
 
+/-! ### wrapper chains and the bisection of the molarity → molality conversion -/
+
+theorem wrapChain_append_single (ws : List (Wrapper ℝ)) (w : Wrapper ℝ) (psd : ℝ → ℝ) :
+    wrapChain (ws ++ [w]) psd = w.apply (wrapChain ws psd) := by
+  simp [wrapChain, List.foldl_append]
+
+theorem two_real : (2.0 : ℝ) = 2 := by norm_num
+
+/-- invariant of `bisect`: the last bracket `[a, b]` lies inside the first, has width `(hi − lo) / 2^k`, still
+    carries the sign change, and the answer is its midpoint -/
+theorem bisect_bracket (g : ℝ → ℝ) (k : ℕ) (lo hi : ℝ) (h : lo ≤ hi) (hlo : 0 ≤ g lo) (hhi : g hi ≤ 0) :
+    ∃ a b, lo ≤ a ∧ a ≤ b ∧ b ≤ hi ∧ b - a = (hi - lo) / 2 ^ k ∧ 0 ≤ g a ∧ g b ≤ 0 ∧
+      bisect g k lo hi = (a + b) / 2 := by
+  induction k generalizing lo hi with
+  | zero => exact ⟨lo, hi, le_refl _, h, le_refl _, by simp, hlo, hhi, by simp [bisect, two_real]⟩
+  | succ k ih =>
+    have hm1 : lo ≤ (lo + hi) / 2 := by linarith
+    have hm2 : (lo + hi) / 2 ≤ hi := by linarith
+    have z : (0.0 : ℝ) = 0 := by norm_num
+    by_cases hg : 0 < g ((lo + hi) / 2)
+    · obtain ⟨a, b, h1, h2, h3, h4, h5, h6, h7⟩ := ih ((lo + hi) / 2) hi hm2 hg.le hhi
+      refine ⟨a, b, by linarith, h2, h3, ?_, h5, h6, ?_⟩
+      · rw [h4, pow_succ]; field_simp; ring
+      · simp only [bisect, two_real, z, RealLike.lt, decide_eq_true_eq, hg, if_true]; exact h7
+    · obtain ⟨a, b, h1, h2, h3, h4, h5, h6, h7⟩ := ih lo ((lo + hi) / 2) hm1 hlo (not_lt.mp hg)
+      refine ⟨a, b, h1, h2, by linarith, ?_, h5, h6, ?_⟩
+      · rw [h4, pow_succ]; field_simp; ring
+      · simp only [bisect, two_real, z, RealLike.lt, decide_eq_true_eq, hg, if_false]; exact h7
+
 /-! ### drag_models: polynomials in `x = R / h` (wall) and `x = R / d` (bead–bead) -/
 
 noncomputable def faxenP (x : ℝ) : ℝ := 1 - 9/16*x + 1/8*x^3 - 45/256*x^4 - 1/16*x^5
